@@ -71,6 +71,19 @@ func (ex *Exec) bytesToTree(v Value, site ssa.Instruction) (*JNode, string) {
 			return n, ""
 		}
 	}
+	if t, ok := content.(*Term); ok {
+		if as, ok := fixedAtoms(t); ok && len(as) > 0 {
+			// a fixed-length character sequence: not JSON when its first byte can neither start a JSON
+			// value nor be white space (decided by the solver; anything else is not modelled)
+			canStart := tFalse
+			for _, c := range []byte("{[\"-0123456789tfn \t\r\n") {
+				canStart = tOr(canStart, atomEq(as[0], c))
+			}
+			if !ex.branch(canStart, site) {
+				return nil, "invalid character looking for beginning of value"
+			}
+		}
+	}
 	panic(unsupported("unmarshal of non-tree symbolic text at " + ex.site(site)))
 }
 
@@ -114,6 +127,7 @@ type decoderState struct {
 	pending  Value // unread content
 	eof      bool
 	stickErr *Iface
+	badChunk Value // the content on which the decoder failed (what Buffered() still holds)
 	stickHit int // Decode calls answered from the sticky error
 	maxToken int // bufio.Scanner token limit (0 = bufio.MaxScanTokenSize)
 }
@@ -195,18 +209,54 @@ func init() {
 			return *st.stickErr
 		}
 		// a decoder consumes one JSON value per Decode; sources deliver one value per chunk
-		chunk, err := ex.nextChunk(fr, site, st)
-		if err.t != nil {
-			st.stickErr = &err
-			return err
+		var chunk Value
+		for {
+			c, err := ex.nextChunk(fr, site, st)
+			if err.t != nil {
+				st.stickErr = &err
+				return err
+			}
+			// white space between values is skipped by the decoder
+			if t, ok := c.(*Term); ok {
+				if s, ok := t.StrVal(); ok && strings.TrimSpace(s) == "" {
+					continue
+				}
+			}
+			chunk = c
+			break
 		}
 		n, msg := ex.bytesToTree(ByteStr{s: chunk}, site)
 		if n == nil {
 			e := ex.syntaxErr(msg)
 			st.stickErr = &e // json.Decoder errors are sticky
+			st.badChunk = chunk
 			return e
 		}
 		return ex.doUnmarshal(fr, site, n, a[1].(Iface))
+	})
+
+	reg("(*encoding/json.Decoder).Buffered", func(ex *Exec, fr *Frame, site ssa.Instruction, a []Value) Value {
+		// the unread data in the decoder's buffer: after a syntax error the offending text itself
+		p := nilCheck(fr, site, a[0])
+		st := engState[decoderState](ex, "jsondec", p)
+		var content Value = mkStr("")
+		if st.badChunk != nil {
+			content = st.badChunk
+		}
+		r := ex.makeBytesReader(ByteStr{s: content})
+		return Iface{t: types.NewPointer(ex.eng.lookupType("bytes", "Reader")), v: r}
+	})
+	reg("io.MultiReader", func(ex *Exec, fr *Frame, site ssa.Instruction, a []Value) Value {
+		t := ex.eng.lookupType("bytes", "Reader")
+		p := newPtr(zero(t))
+		var subs []Iface
+		if sl, ok := a[0].(Slice); ok {
+			for i := 0; i < sl.n; i++ {
+				subs = append(subs, sl.a[i].(Iface))
+			}
+		}
+		ex.hctxSet(p, "multi", &multiState{subs: subs, eof: make([]bool, len(subs))})
+		return Iface{t: types.NewPointer(t), v: p}
 	})
 
 	// ---- bufio over harness readers ----
@@ -228,6 +278,27 @@ func init() {
 		}
 		line, err := ex.readLine(fr, site, st, string([]byte{byte(d)}), true)
 		return Tuple{line, err}
+	})
+	reg("(*bufio.Reader).ReadBytes", func(ex *Exec, fr *Frame, site ssa.Instruction, a []Value) Value {
+		p := nilCheck(fr, site, a[0])
+		st := engState[decoderState](ex, "bufio", p)
+		d, ok := a[1].(*Term).BVVal()
+		if !ok {
+			panic(unsupported("ReadBytes symbolic delimiter"))
+		}
+		line, err := ex.readLine(fr, site, st, string([]byte{byte(d)}), true)
+		return Tuple{ByteStr{s: line}, err}
+	})
+	reg("bytes.TrimSpace", func(ex *Exec, fr *Frame, site ssa.Instruction, a []Value) Value {
+		switch b := a[0].(type) {
+		case ByteStr:
+			return ByteStr{s: intrinsics["strings.TrimSpace"](ex, fr, site, []Value{b.s})}
+		case Slice:
+			if b.n == 0 {
+				return b
+			}
+		}
+		panic(unsupported("bytes.TrimSpace of a mutable byte slice"))
 	})
 	reg("bufio.NewScanner", func(ex *Exec, fr *Frame, site ssa.Instruction, a []Value) Value {
 		t := ex.eng.lookupType("bufio", "Scanner")
@@ -518,24 +589,39 @@ func (ex *Exec) stripCR(line Value, site ssa.Instruction) Value {
 }
 
 // nextChunk pulls the next chunk from a harness reader (VerifNextChunk) or everything (VerifReadAll).
+type multiState struct {
+	subs []Iface
+	eof  []bool
+	i    int
+}
+
 func (ex *Exec) nextChunk(fr *Frame, site ssa.Instruction, st *decoderState) (Value, Iface) {
-	if st.src.t == nil {
+	return ex.readerChunk(fr, site, st.src, &st.eof)
+}
+
+func (ex *Exec) eofErr() Iface {
+	g := ex.eng.lookupGlobal("io", "EOF")
+	return (*ex.globalAddr(g)).(Iface)
+}
+
+// readerChunk delivers the next piece of content of an io.Reader the engine knows how to read.
+func (ex *Exec) readerChunk(fr *Frame, site ssa.Instruction, src Iface, eof *bool) (Value, Iface) {
+	if src.t == nil {
 		fr.rtPanic(site, "invalid memory address or nil pointer dereference (nil reader)")
 	}
-	if m := ex.findMethod(st.src.t, "VerifNextChunk"); m != nil {
-		r := ex.call(fr, site, m, []Value{st.src.v}, false).(Tuple)
+	if m := ex.findMethod(src.t, "VerifNextChunk"); m != nil {
+		r := ex.call(fr, site, m, []Value{src.v}, false).(Tuple)
 		if e := r[1].(Iface); e.t != nil {
 			return mkStr(""), e
 		}
 		return r[0].(ByteStr).s, Iface{}
 	}
-	if m := ex.findMethod(st.src.t, "VerifReadAll"); m != nil {
-		if st.eof {
-			g := ex.eng.lookupGlobal("io", "EOF")
-			return mkStr(""), (*ex.globalAddr(g)).(Iface)
+	if m := ex.findMethod(src.t, "VerifReadAll"); m != nil {
+		if *eof {
+			return mkStr(""), ex.eofErr()
 		}
-		st.eof = true
-		r := ex.call(fr, site, m, []Value{st.src.v}, false).(Tuple)
+		*eof = true
+		r := ex.call(fr, site, m, []Value{src.v}, false).(Tuple)
 		if e := r[1].(Iface); e.t != nil {
 			return mkStr(""), e
 		}
@@ -549,7 +635,35 @@ func (ex *Exec) nextChunk(fr *Frame, site ssa.Instruction, st *decoderState) (Va
 		}
 		panic(unsupported("VerifReadAll result"))
 	}
-	if p, ok := st.src.v.(*Value); ok && p != nil {
+	if p, ok := src.v.(*Value); ok && p != nil {
+		if ms, ok := ex.hctxGet(p, "multi").(*multiState); ok {
+			for ms.i < len(ms.subs) {
+				c, err := ex.readerChunk(fr, site, ms.subs[ms.i], &ms.eof[ms.i])
+				if err.t != nil {
+					if ex.isEOF(err) {
+						ms.i++
+						continue
+					}
+					return mkStr(""), err
+				}
+				return c, Iface{}
+			}
+			return mkStr(""), ex.eofErr()
+		}
+		// a *bufio.Reader created by the engine: its unread remainder first, then its source
+		if m, _ := ex.hctx["bufio"].(map[*Value]*decoderState); m != nil {
+			if bs := m[p]; bs != nil {
+				if bs.pending != nil && !ex.isEmptyStr(bs.pending) {
+					c := bs.pending
+					bs.pending = mkStr("")
+					return c, Iface{}
+				}
+				if bs.stickErr != nil {
+					return mkStr(""), *bs.stickErr
+				}
+				return ex.readerChunk(fr, site, bs.src, &bs.eof)
+			}
+		}
 		if c := ex.hctxGet(p, "content"); c != nil {
 			ex.hctxSet(p, "content", nil)
 			if bs, ok := c.(ByteStr); ok {
@@ -559,10 +673,9 @@ func (ex *Exec) nextChunk(fr *Frame, site ssa.Instruction, st *decoderState) (Va
 				return mkStr(""), Iface{}
 			}
 		}
-		g := ex.eng.lookupGlobal("io", "EOF")
-		return mkStr(""), (*ex.globalAddr(g)).(Iface)
+		return mkStr(""), ex.eofErr()
 	}
-	panic(unsupported("reader " + st.src.t.String() + " has neither VerifNextChunk nor VerifReadAll"))
+	panic(unsupported("reader " + src.t.String() + " has neither VerifNextChunk nor VerifReadAll"))
 }
 
 // readLine returns content up to delim (included when keep) pulling chunks as needed.
